@@ -149,7 +149,7 @@ func (c *CBC) Decrypt(header recordlayer.Header, in []byte) ([]byte, error) {
 	}
 
 	macSize := mac.Size()
-	if len(body) < macSize {
+	if len(body) < macSize+paddingLen {
 		return nil, dtlserrors.ErrInvalidMAC
 	}
 
